@@ -122,3 +122,17 @@ Proof.
     rewrite lookup_insert_ne by done. unfold eff_next0, eff_base. cbn [e_after pr_next e_newch]. by rewrite (lookup_union_r _ _ _ Hsf).
 Qed.
 End Join.
+
+(* ------------------------------------------------------------------ two control messages in a row: f -> t -> t' *)
+Lemma ctl_ctl_commute c f t t' nf n0 k k2 pt pt' :
+  f <> t -> f <> t' -> t <> t' -> procs c !! t = Some pt -> procs c !! t' = Some pt' ->
+  ctl nf k2 t t' (ctl nf k f t c) = ctl nf k f t' (ctl n0 k2 t t' c).
+Proof.
+  intros Hft Hft' Htt' Hpt Hpt'. unfold ctl at 2. rewrite Hpt. unfold ctl at 3. rewrite Hpt'.
+  unfold ctl. cbn [procs chans out]. rewrite lookup_insert_ne by done. rewrite lookup_delete_ne by done. rewrite Hpt'.
+  rewrite lookup_insert. cbn [pr_body0 pr_next]. f_equal.
+  - apply map_eq. intros r. destruct (decide (r = t')) as [->|Hr']; [by rewrite !lookup_insert|].
+    destruct (decide (r = t)) as [->|Hrt]; [by simplify_map_eq|].
+    destruct (decide (r = f)) as [->|Hrf]; by simplify_map_eq.
+  - apply map_eq. intros j. rewrite !close_all_lookup. destruct (decide (j ∈ [k2])), (decide (j ∈ [k])); try done.
+Qed.
